@@ -1,7 +1,14 @@
-//! Conformance drivers (pv-flat). Sub-commands are added per property.
+//! Conformance drivers (pv-flat): the flat bit-level codec of pallas-codec
+//! against spec/flat/FlatCodec.tla (C01 round trip, C02 totality).
+mod flat;
+
 fn main() {
     let args = pv_core::Args::parse();
     match args.cmd.as_str() {
+        "rt-replay" => flat::rt_replay(&args),
+        "rt-trace" => flat::rt_trace(&args),
+        "total-replay" => flat::total_replay(&args),
+        "total-trace" => flat::total_trace(&args),
         other => pv_core::die(&format!("unknown sub-command {other}")),
     }
 }
